@@ -23,18 +23,39 @@ from . import c02_gen
 from .c02_gen import regenerate      # setup.sh regenerates Gen/MpsNetGen.v (and the Gen files it imports) through this name
 
 PRECS = [2, 4, 8]
+# qinfo without 'input_default' + depthwise conv / add fed by the raw network input: on /repo the consumer keeps a Dummy input
+# quantizer (register_in_mps_quantizers returns early when input_features_set_by is the placeholder) -> in_precision -1 vs producer
+# out_precision; repaired by the proposed commit on branch wp/C02-r8; set to True once that is merged
+ALLOW_NOINQ_REQUANT = True
 
 
 def gen_case(rng, idx, first=None):
     ru = rng.random() < 0.15        # one conv / linear module invoked twice (same or other resolution)
-    nodes = G.gen_spec(rng, first='reuse2' if (ru and rng.random() < 0.7) else first, dim=1 if rng.random() < 0.2 else 2, padmodes=True, reuse=ru, evenk=True)     # 1 in 5: Conv1d network
+    noinq = rng.random() < 0.12     # qinfo without 'input_default': the network input is not quantized
+    linfirst = noinq and rng.random() < 0.6      # ... and a Linear is the first searchable layer
+    while True:
+        nodes = G.gen_spec(rng, first='reuse2' if (ru and rng.random() < 0.7) else first, dim=1 if rng.random() < 0.2 else 2,
+                           padmodes=True, reuse=ru and not noinq, evenk=True, linfirst=linfirst)     # 1 in 5: Conv1d network
+        # without input quantizer: not combined with a layer invoked twice; a depthwise conv / add in the network-input group is
+        # generated only once the repair of register_in_mps_quantizers covers it (see ALLOW_NOINQ_REQUANT)
+        if noinq and (G.has_reuse(nodes) or (G.input_group_requantized(nodes) and not ALLOW_NOINQ_REQUANT)):
+            first = None
+            continue
+        break
     if rng.random() < 0.6:        # biased depthwise / residual pairs (shared weight quantizer) must occur often
         for nd in nodes:
             if nd['k'] in ('conv', 'dw'):
                 nd['bias'] = True
     r = rng.random()
     T = 0.05 if r < 0.12 else 20.0 if r < 0.24 else round(math.exp(rng.uniform(math.log(0.05), math.log(20))), 4)
-    return {'nodes': nodes, 'seed': rng.randrange(1 << 30), 'aseed': rng.randrange(1 << 30),
+    if linfirst:
+        for nd in nodes:
+            if nd['k'] == 'lin':
+                nd['bias'] = True
+    cand = G.qlayer_candidates(nodes)
+    qlayers = sorted(rng.sample(cand, min(len(cand), rng.randint(1, 2)))) if (cand and rng.random() < 0.4) else []
+    return {'nodes': nodes, 'noinq': noinq, 'qlayers': qlayers, 'tinybn': rng.random() < 0.15,
+            'seed': rng.randrange(1 << 30), 'aseed': rng.randrange(1 << 30),
             'ap': rng.sample(PRECS, rng.randint(1, 3)), 'wp': rng.sample(PRECS, rng.randint(1, 3)),
             'T': T, 'gumbel': rng.random() < 0.4, 'hard': rng.random() < 0.3, 'dsq': rng.random() < 0.25,
             'pretrain': rng.random() < 0.25, 'adversarial': True, 'idx': idx,
@@ -81,11 +102,17 @@ def run_case(c):
         from plinio.methods.mps.nn.qtz import MPSPerLayerQtz
         nodes = c['nodes']
         m = G.build(nodes, c['seed'])
+        if c.get('tinybn'):           # BatchNorm with huge running variance: the folded weights (and the bias scale s_in * s_w) get tiny
+            import torch.nn as nn_
+            with torch.no_grad():
+                for k_, md_ in enumerate(md for md in m.modules() if isinstance(md, (nn_.BatchNorm1d, nn_.BatchNorm2d))):
+                    if k_ % 2 == 0:
+                        md_.running_var.fill_(10.0 ** (8 + (c['seed'] + k_) % 3))
         ishape = G.input_shape(nodes)
         stage = 'convert'
         handin_train = c.get('handin') == 'train' and c.get('seq') != 'as-returned'
         m.train(handin_train)
-        p = MPS(m, input_shape=ishape, qinfo=get_default_qinfo(tuple(c['wp']), tuple(c['ap'])),
+        p = MPS(m, input_shape=ishape, qinfo=G.make_qinfo(nodes, c['wp'], c['ap'], c.get('qlayers', ()), not c.get('noinq')),
                 temperature=c['T'], gumbel_softmax=c['gumbel'], hard_softmax=c['hard'],
                 disable_shared_quantizers=c['dsq'])
         obs['mode_mismatch'] = sorted(n_ or '<root>' for n_, md_ in p.named_modules() if md_.training != handin_train)[:8]
@@ -127,6 +154,8 @@ def run_case(c):
             clips = [(n_, q_) for n_, q_ in p.named_parameters() if n_.endswith('clip_val')]
             seen_c = set()
             clips = [(n_, q_) for n_, q_ in clips if not (id(q_) in seen_c or seen_c.add(id(q_)))]
+            if not clips:
+                cl = 'copy_'
             tgt = [torch.full_like(q_, round(crng.uniform(0.5, 10.0), 3)) for _, q_ in clips]
             if cl == 'sgd':
                 opt = torch.optim.SGD([q_ for _, q_ in clips], lr=0.5)
@@ -475,6 +504,8 @@ def compare_model(c, o, val, fixed):
     for q, code in mp_.items():
         n += 1
         exp = list(c['wp']) if code[0] in (2, 3) else ([-1] if (code[0] == 1 and code[1] == outcls) else list(c['ap']))
+        if code[0] == 3 and code[1] in c.get('qlayers', []):      # own weight quantizer (disable_shared_quantizers): its own qinfo entry counts
+            exp = G.qlayer_wp(c['nodes'], c['wp'], code[1])
         got = o['quantizers'][str(q)]['prec']
         if got != exp:
             mism.append('quantizer %r: precision tuple %r, model %r' % (code, got, exp))
@@ -487,7 +518,7 @@ def run(ctx):
     ctx.extra['generated_model'] = c02_gen.status(gen_rejected, built)
     ctx.rule = ('grammar networks of vlib/mps_gen.py (1..4 blocks of conv / conv-BN / depthwise / residual add of (x, conv x), of two convs, of a depthwise chain with its source / pooling, head pool-flatten-linear(-BN)-linear; '
                 'depthwise / residual blocks forced first in half of the cases, all conv biases on in 60%) x precision tuples from {2,4,8} (1..3, any order) for activations and weights x random alpha with arg-max margin >= 0.05 '
-                'x temperature in [0.05,20] (both ends forced) x gumbel/hard/disable_shared_quantizers/pre-training-forward flags x conv padding_mode {zeros, circular, reflect, replicate} with padding > 0, paddings int / same / valid, same-padding with even and mixed kernels (2, 4, (2,3), (3,2)) x dilation 1..3 (also inside residual adds) x model under test {the MPS model, a copy.deepcopy / pickle round trip of it taken after construction / in training mode / after a coefficient change, coefficients of the copy changed afterwards; original must stay untouched} x export() repeated 0-2 more times on the same object after coefficient / weight changes written via copy_, .data=, .data.copy_, .data[i]=, an optimizer step or load_state_dict x learned PACT clip values {initial, moved to random values in [0.5,10] by copy_ / optimizer steps} x mode of the float model handed in {eval, train}: every sub-module must come back in that mode x moment of summary()+export() {on the wrapper exactly as returned for an eval-mode model (no .eval()/.train() call), after an eval forward, right after training-mode Gumbel forwards, after a coefficient update without forward} x schedule of 2-3 further forward passes (same / new batch, mode toggles) through the same exported model; where a layer input quantizer is not its producer output quantizer object the two are made to select different precisions. '
+                'x temperature in [0.05,20] (both ends forced) x gumbel/hard/disable_shared_quantizers/pre-training-forward flags x conv padding_mode {zeros, circular, reflect, replicate} with padding > 0, paddings int / same / valid, same-padding with even and mixed kernels (2, 4, (2,3), (3,2)) x dilation 1..3 (also inside residual adds) x model under test {the MPS model, a copy.deepcopy / pickle round trip of it taken after construction / in training mode / after a coefficient change, coefficients of the copy changed afterwards; original must stay untouched} x export() repeated 0-2 more times on the same object after coefficient / weight changes written via copy_, .data=, .data.copy_, .data[i]=, an optimizer step or load_state_dict x qinfo {default, + layer-specific entries named after depthwise layers / residual addends inside a sharing group, without input_default (network input not quantized; a biased Linear as first searchable layer in 60% of those)} x BatchNorm running_var 1e8..1e10 in 15% (tiny folded weights / bias scales) x learned PACT clip values {initial, moved to random values in [0.5,10] by copy_ / optimizer steps} x mode of the float model handed in {eval, train}: every sub-module must come back in that mode x moment of summary()+export() {on the wrapper exactly as returned for an eval-mode model (no .eval()/.train() call), after an eval forward, right after training-mode Gumbel forwards, after a coefficient update without forward} x schedule of 2-3 further forward passes (same / new batch, mode toggles) through the same exported model; where a layer input quantizer is not its producer output quantizer object the two are made to select different precisions. '
                 'one case = one network with one coefficient assignment; distinct by (architecture, precisions, selected indices); non-trivial = at least two candidate precisions somewhere and at least 2 searchable layers')
     n = 260 if ctx.quick else 2600
     cases = []
@@ -518,6 +549,12 @@ def run(ctx):
         ctx.dist['nprec_a:%d' % len(c['ap'])] += 1
         ctx.dist['conv%dd' % c['nodes'][0].get('dim', 2)] += 1
         ctx.dist['seq:' + c.get('seq', 'eval')] += 1
+        if c.get('noinq'):
+            ctx.dist['no-input-quantizer' + (':linear-first' if c['nodes'][1]['k'] in ('flatten', 'pool') else '')] += 1
+        if c.get('qlayers'):
+            ctx.dist['layer-specific-qinfo-entries'] += 1
+        if c.get('tinybn') and any(nd['k'] == 'bn' for nd in c['nodes']):
+            ctx.dist['bn-with-running-var-1e8..1e10'] += 1
         ctx.dist['clip-values:%s' % (c.get('clip') or 'initial')] += 1
         if c.get('clip') and any(nd['k'] == 'add' for nd in c['nodes']):
             ctx.dist['moved-clip-values-with-residual-add'] += 1
@@ -561,7 +598,7 @@ def run(ctx):
     if built:
         try:
             # (the wiring model has no notion of one module at two call sites: such networks are checked by the oracle only)
-            good = [(c, o) for c, o in zip(cases, obs) if not o['exc'] and not G.has_reuse(c['nodes'])]
+            good = [(c, o) for c, o in zip(cases, obs) if not o['exc'] and not G.has_reuse(c['nodes']) and not c.get('noinq')]    # (NIn of the IR = placeholder + input quantizer)
             # the tree follows the repaired wiring iff no producer mismatch was observed at object level
             old_sites = any(not pr['same_object'] for c, o in good for pr in o['producer'].values())
             fixed = not old_sites
@@ -631,7 +668,7 @@ def replay(r):
     o = run_case(c)
     print('network:', [nd['k'] for nd in c['nodes']])
     print('model under test:', ('%s of the MPS model taken at: %s' % (c['copy']['how'], c['copy']['at'])) if c.get('copy') else 'the MPS model itself')
-    print('PACT clip values:', c.get('clip') or 'initial')
+    print('PACT clip values:', c.get('clip') or 'initial', '| input quantizer:', not c.get('noinq'), '| layer-specific qinfo entries for nodes', c.get('qlayers'), '| huge BN variance:', bool(c.get('tinybn')))
     print('summary()/export() called:', c.get('seq', 'eval'), '| padding modes:', sorted({nd.get('pm', 'zeros') for nd in c['nodes'] if nd['k'] in ('conv', 'dw')}))
     print('activation precisions', c['ap'], 'weight precisions', c['wp'], 'T', c['T'], 'gumbel', c['gumbel'], 'hard', c['hard'], 'disable_shared_quantizers', c['dsq'])
     print('property requires: MPS.eval()(x) == MPS.export().eval()(x) bit for bit; exported precisions == summary(); input precision of a layer == output precision of the producer of its input')
